@@ -1403,6 +1403,17 @@ def _callee(c):
     return f.attr if isinstance(f, ast.Attribute) else (f.id if isinstance(f, ast.Name) else None)
 
 
+def _bound_names(t):
+    """names (re)bound by an assignment target - not the bases of attribute / subscript stores"""
+    if isinstance(t, ast.Name):
+        return [t.id]
+    if isinstance(t, (ast.Tuple, ast.List)):
+        return [x for e in t.elts for x in _bound_names(e)]
+    if isinstance(t, ast.Starred):
+        return _bound_names(t.value)
+    return []
+
+
 class FlagTypes:
     """which classes carry a flag, which functions always return such an object, which locals hold one"""
 
@@ -1442,7 +1453,7 @@ class FlagTypes:
         for _ in range(4):
             changed = False
             for m, c, f in self.funcs:
-                lt = self.local_types(f)
+                lt = self.local_types(f, c)
                 ts = []
                 for r in ast.walk(f):
                     if not isinstance(r, ast.Return):
@@ -1450,7 +1461,7 @@ class FlagTypes:
                     if r.value is None or (isinstance(r.value, ast.Constant) and r.value.value is None):
                         ts.append(('<none>', True))
                     else:
-                        ts.append(self.expr_type(r.value, lt))
+                        ts.append(self.expr_type(r.value, lt, c))
                 real = [t for t in ts if t and t[0] != '<none>']
                 if real and all(t is not None for t in ts) and len({t[0] for t in real}) == 1:
                     v = (real[0][0], any(t[1] for t in ts))
@@ -1474,11 +1485,15 @@ class FlagTypes:
             return None
         return (next(iter(ts))[0], any(t[1] for t in ts))
 
-    def expr_type(self, e, lt):
+    def expr_type(self, e, lt, cls=None):
         if isinstance(e, ast.Call):
             cn = _callee(e)
             if cn in self.flag:
                 return (cn, False)
+            if cls is not None and isinstance(e.func, ast.Attribute) and _is_name(e.func.value, 'self'):
+                k, f = self.idx.find_method(cls, cn)        # self-call: resolved through the MRO
+                if f is not None and not self._abstract(f):
+                    return self.prod.get(id(f))
             return self.name_type(cn)
         if isinstance(e, ast.Name):
             return lt.get(e.id)
@@ -1495,25 +1510,22 @@ class FlagTypes:
                 asg[n.target.id].append(n.value)
             elif isinstance(n, ast.Assign):
                 for t in n.targets:
-                    for x in ast.walk(t):
-                        if isinstance(x, ast.Name):
-                            asg[x.id].append(False)
+                    for x in _bound_names(t):
+                        asg[x].append(False)
             elif isinstance(n, (ast.For, ast.AugAssign, ast.comprehension)):
-                for x in ast.walk(n.target):
-                    if isinstance(x, ast.Name):
-                        asg[x.id].append(False)
+                for x in _bound_names(n.target):
+                    asg[x].append(False)
             elif isinstance(n, ast.With):
                 for it in n.items:
                     if it.optional_vars is not None:
-                        for x in ast.walk(it.optional_vars):
-                            if isinstance(x, ast.Name):
-                                asg[x.id].append(False)
+                        for x in _bound_names(it.optional_vars):
+                            asg[x].append(False)
         for a in fn.args.args + fn.args.kwonlyargs:
             asg[a.arg].append(False)
         self._assigns[id(fn)] = asg
         return asg
 
-    def local_types(self, fn):
+    def local_types(self, fn, cls=None):
         """{local: (flag class, nullable, none_initialised)} for locals that only ever hold such a result (or None)"""
         asg = self.assigns_of(fn)
         out = {}
@@ -1527,7 +1539,10 @@ class FlagTypes:
                         none_init = True
                         ts.append(('<none>', True))
                     else:
-                        ts.append(self.expr_type(v, out))
+                        t = self.expr_type(v, out, cls)
+                        if t is not None and len(t) == 3 and t[2]:
+                            none_init = True          # copy of a None-initialised holder
+                        ts.append(t)
                 real = [t for t in ts if t and t[0] != '<none>']
                 if real and all(t is not None for t in ts) and len({t[0] for t in real}) == 1:
                     out[k] = (real[0][0], any(t[1] for t in ts), none_init)
@@ -1545,11 +1560,11 @@ def _bool_leaves(e, neg=False):
         yield e, neg
 
 
-def flag_uses(ft, fn):
+def flag_uses(ft, fn, cls=None):
     """[(kind, local, flag class, lineno)] kind: 'field' (x.success in a boolean context), 'guarded' (bare x as a None
     guard whose flag is read in the same test, in the guarded body, or after the early exit it guards), 'holder' (bare x,
     x is None-initialised: plain None guard), 'bare' (bare x used as the flag)"""
-    lt = ft.local_types(fn)
+    lt = ft.local_types(fn, cls)
     if not lt:
         return []
 
@@ -1564,6 +1579,18 @@ def flag_uses(ft, fn):
     for n in ast.walk(fn):
         if isinstance(n, ast.Attribute) and isinstance(n.value, ast.Name) and n.value.id in lt and is_read(n, n.value.id):
             all_reads[n.value.id].append(n.lineno)
+    # enclosing If / While / IfExp statements of every node (a use under `if x.success:` is already decided)
+    enclosing = {}
+
+    def mark(node, stack):
+        for ch in ast.iter_child_nodes(node):
+            if isinstance(node, (ast.If, ast.While, ast.IfExp)) and ch is not node.test:
+                sub = stack + [node]
+            else:
+                sub = stack
+            enclosing[id(ch)] = sub
+            mark(ch, sub)
+    mark(fn, [])
     sites = []       # (test expr, owning statement or None)
     for n in ast.walk(fn):
         if isinstance(n, (ast.If, ast.While, ast.IfExp, ast.Assert)):
@@ -1589,7 +1616,7 @@ def flag_uses(ft, fn):
                 continue
             var = lf.id
             cls, nullable, none_init = lt[var]
-            ok = reads_in([test], var)
+            ok = reads_in([test], var) or any(reads_in([a.test], var) for a in enclosing.get(id(lf), []))
             if not ok and nullable and st is not None:
                 if isinstance(st, ast.IfExp):
                     ok = reads_in([st.orelse if neg else st.body], var)
@@ -1641,7 +1668,7 @@ def rule_flags(chk, idx, W):
     for m, c, fn in ft.funcs:
         if not m.name.startswith('recognizers_date_time'):
             continue
-        uses = flag_uses(ft, fn)
+        uses = flag_uses(ft, fn, c)
         if not uses:
             continue
         qual = '%s.%s' % (c.name, fn.name) if c else fn.name
